@@ -521,7 +521,7 @@ def signatures(cl):
                 access = c.get("access", access)
                 continue
             ds = []
-            if k in ("CXXConstructorDecl", "CXXMethodDecl"):
+            if k in ("CXXConstructorDecl", "CXXMethodDecl", "CXXConversionDecl"):
                 ds = [c]
             elif k == "FunctionTemplateDecl":
                 specs = [x for x in inner(c) if x.get("kind") in ("CXXConstructorDecl", "CXXMethodDecl")]
@@ -536,7 +536,16 @@ def signatures(cl):
                 if key in seen:
                     continue
                 seen.add(key)
-                out.append({"class": cn, "member": name, "implicit": bool(d.get("isImplicit")),
+                rt = qt(d).split("(")[0].strip()
+                if d.get("kind") == "CXXConversionDecl":
+                    rt = d.get("name", "").replace("operator ", "")
+                rk = "value"
+                r2 = rt.replace("const ", "").replace(" ", "")
+                if cn + "<c11inst::E>&" in r2.replace("rkcommon::utility::", ""): rk = "self_ref"
+                elif r2 in ("c11inst::E&", "E&"): rk = "elem_ref"
+                elif r2 in ("c11inst::E*", "E*"): rk = "elem_ptr"
+                elif r2.endswith("&") or r2.endswith("*"): rk = "other_ref"
+                out.append({"class": cn, "member": name, "implicit": bool(d.get("isImplicit")), "returns": rt, "return_kind": rk,
                             "params": [{"type": t, "kind": kd} for t, kd in zip(pts, kinds)]})
     return out
 
